@@ -148,3 +148,15 @@ def who_writes_fields(ctx, adt_path, field=None):
                     if names and (field is None or names[0] == field):
                         out.add(f['path'])
     return out
+
+
+def seq_equal_under(pc, a, b):
+    """sequence equality modulo parts whose length is zero under pc"""
+    if equal(a, b):
+        return True
+
+    def parts(x):
+        x = T.canon_seq(x)
+        ps = list(x[1]) if x[0] == 'concat' else [x]
+        return [q for q in ps if not solver.entails(pc, T.eq0(T.mk_len(q)))]
+    return parts(a) == parts(b)
